@@ -21,11 +21,12 @@ Base(day) == CalInfo(day) @@ [major |-> 0, minor |-> 0, patch |-> 0, bid |-> <<4
 StatesFor(P, day) ==
   LET F == FieldSet(P)
       N(fld) == IF fld \in F THEN GenNums ELSE {0} IN
-  { [Base(day) EXCEPT !.major = mj, !.minor = mi, !.patch = pa, !.tag = tg, !.pytag = PyTagOfTag[tg], !.num = nu, !.inc0 = i0, !.inc1 = i0 + 1, !.bid = b] :
+  LET All == { [Base(day) EXCEPT !.major = mj, !.minor = mi, !.patch = pa, !.tag = tg, !.pytag = PyTagOfTag[tg], !.num = nu, !.inc0 = i0, !.inc1 = i0 + 1, !.bid = b] :
       mj \in N("major"), mi \in N("minor"), pa \in N("patch"),
       tg \in (IF "tag" \in F \/ "pytag" \in F THEN GenTags ELSE {"final"}),
       nu \in (IF "num" \in F THEN {0, 2} ELSE {0}), i0 \in (IF "inc0" \in F \/ "inc1" \in F THEN {0, 9} ELSE {0}),
       b \in (IF "bid" \in F THEN GenBuilds ELSE {<<49,48,48,49>>}) }
+  IN {st \in All : st.tag = "final" => st.num = 0}     \* a final version has no tag number (unreachable by bumping)
 FlagsFor(P) == {g \in Flags : (g.major => "major" \in FieldSet(P)) /\ (g.minor => "minor" \in FieldSet(P)) /\ (g.patch => "patch" \in FieldSet(P))}
 
 Init == p \in 1..Len(GenPatterns) /\ d \in GenDates /\ v = NoV /\ f = NoF /\ off = 0 /\ lvl = 0
